@@ -37,6 +37,9 @@ def scenarios(tier):
     for n0, pat in cfgs:
         out.append(Scenario('hist', n0=n0, pat=pat, tier=tier))
     out.append(Scenario('hist', n0=2, pat='slow', tier=tier, tick=0.3))
+    # a check period (0.13 s) that does not divide the 0.1 s polling of kill_process: a worker that ignores the stop signal
+    # and dies for another reason is found by the periodic check between two polls of the kill in flight
+    out.append(Scenario('hist', n0=2, pat='first-stubborn', tier=tier, tick=0.13))
     out.append(Scenario('sweep', n0=1, pat='obedient', tier=tier, nodet=True))
     return out
 
@@ -143,7 +146,17 @@ def check_events(world, res, win, final=True):
         p = k.procs[pid]
         if p.death_time is None or abs(p.death_time - t) > 1e-9 or p.wstatus != wst:
             continue            # the injected death lost against an earlier one
-        if getattr(world, 'death_ctx', {}).get(pid) != 'active':
+        ctx = getattr(world, 'death_ctx', {}).get(pid)
+        if ctx == 'active-being-killed':
+            if reaps.get(pid):
+                code = reaps[pid][0][1]
+                exp = expected_exit_code(wst)
+                res.check('C09.exit_code', code == exp,
+                          lambda: 'reap event of %d carries exit_code=%r, wait status %d means %d (the worker died by itself / '
+                          'from outside while a kill request was waiting for it; reaped by %s; after %s)'
+                          % (pid - PID_BASE, code, wst, exp, p.reaped_by, ev_lab), where='watcher.reap_process/kill-in-flight')
+            continue
+        if ctx != 'active':
             res.ev('C09.death_not_while_active', True)
             continue
         if not reaps.get(pid) and any(evs[i][0] >= t - 1e-9 for i in kills.get(pid, [])):
@@ -194,8 +207,12 @@ def _world_with_death_ctx(world):
         p = world.kernel.procs[pid]
         w = world.watcher(p.watcher or '')
         if p.state == RUNNING:
-            world.death_ctx[pid] = 'active' if (w is not None and w.status() == 'active' and
-                                                pid in w.processes and not w.processes[pid].stopping) else 'other'
+            if w is not None and w.status() == 'active' and pid in w.processes:
+                # (a worker that a kill request is waiting for is still a worker of an active watcher: its own death is
+                # reported with its own status; only the "no reap event at all" clause makes allowance for the kill)
+                world.death_ctx[pid] = 'active' if not w.processes[pid].stopping else 'active-being-killed'
+            else:
+                world.death_ctx[pid] = 'other'
         return orig(pid, wst)
     world.die = die
 
